@@ -63,6 +63,7 @@ func main() {
 			"an empty gcaPubKey.dat placed before the first start stands for the residue of a crash during a registration that never completed; such a server counts as unregistered",
 			"a registration issued while a directory occupies the path gcaPubKey.dat (write fault injected from outside, removed right after the call) may be refused; whatever it answers, the model state, the server's key state and every later answer must agree",
 			"a registration issued under RLIMIT_FSIZE = 1..31 (process wide, restored right after the call, SIGXFSZ ignored) has its key file write cut short; it may be refused and may leave bytes in gcaPubKey.dat (counted, not judged, and no restart happens in that state); the next accepted registration must leave exactly its 32 bytes, also after restarts",
+			"lost key file (conditional): after a clean close gcaPubKey.dat is emptied or deleted while equipment-authorizations.dat survives; a server that refuses to start is counted, one that starts is judged (unregistered implies no equipment; after a new registration nothing signed by the old key is listed)",
 			"transient fault: a directory occupies gcaPubKey.dat when the first valid registration arrives and is removed by the harness when that call has returned or after 80-250 ms (timing only decides what is exercised); the first registration may be refused, a second valid one follows at once",
 			"a migration order is well formed only if the server entries it lists are signed by the NewGCA it names; an order signed by the registered key whose list re-uses entries signed by another key is expected to be refused",
 			"the all-zero key is a legitimate GCA key (one sequential history in five registers it, one concurrent batch in five has it among the candidates); nobody can sign for it, so after it is registered nothing at all is honoured",
@@ -98,6 +99,8 @@ func main() {
 			c.Require("seq.winner_is_zero_key", 3)
 			c.Require("seq.failed_persist_registration_refused", 3)
 			c.Require("seq.cut_write_registrations", 3)
+			c.Require("lostkey.trials.emptied", 3)
+			c.Require("lostkey.trials.deleted", 3)
 			c.Require("transient.trials", 6)
 			c.Require("transient.winners.1", 6)
 			c.Require("copied_signature.altered_orders_refused", 20)
@@ -850,6 +853,9 @@ func child(b run.Batch, r *ev.Result) {
 		for i := 0; i < 2 && r.NumViolations() < 5; i++ {
 			transientFault(b, r, sink, i)
 		}
+		for i := 0; i < 2 && r.NumViolations() < 5; i++ {
+			lostKeyFile(b, r, sink, i)
+		}
 	case "conc":
 		for i := 0; i < b.N && r.NumViolations() < 5; i++ {
 			concBatch(b, r, sink, i)
@@ -1518,6 +1524,74 @@ func (x *ctx) copiedSignatureProbes(winner refenc.Key) bool {
 	}
 	x.inspect("after orders with a copied signature")
 	return !x.bad
+}
+
+// lostKeyFile (conditional): K1 is registered and authorizes 1-3 devices; the server is closed and
+// gcaPubKey.dat comes back empty (idx 0) or missing (idx 1) while the authorizations survive (power loss
+// with nothing synced). A server that refuses to start on such a directory is counted. IF it starts it is
+// either still K1's server or unregistered, and then (usual inspection) it must list no equipment; after a
+// registration of K2 nothing authorized under K1 may be listed.
+func lostKeyFile(b run.Batch, r *ev.Result, sink uint16, idx int) {
+	x, err := newCtx(b, r, sink, fmt.Sprintf("lostkey%d", idx), b.Seed+int64(idx)*9173+29)
+	if err != nil {
+		r.Inconc("cannot prepare server directory: " + err.Error())
+		return
+	}
+	defer x.close()
+	if err := x.srv.Start(); err != nil {
+		r.Inconc("server start: " + err.Error())
+		return
+	}
+	g := x.g
+	k1, k2 := refenc.GenKey(g.rng), refenc.GenKey(g.rng)
+	if !x.judge(0, g.register(k1.Pub, g.temp, "temp", "valid")) {
+		return
+	}
+	for n := 1 + g.rng.Intn(3); n > 0; n-- {
+		if !x.judge(0, g.order("auth", &k1, "registered-gca", "valid")) {
+			return
+		}
+	}
+	x.inspect("before the key file is lost")
+	if x.bad || len(x.states) != 1 || x.states[0] == "" {
+		return
+	}
+	mode := []string{"emptied", "deleted"}[idx%2]
+	run.Op("%s close; gcaPubKey.dat %s; start", x.name, mode)
+	client.CloseIdleConnections()
+	if err := x.srv.Close(); err != nil {
+		r.Count("history_ended_by_slow_shutdown", 1)
+		return
+	}
+	path := filepath.Join(x.srv.Dir, "gcaPubKey.dat")
+	if mode == "emptied" {
+		err = os.Truncate(path, 0)
+	} else {
+		err = os.Remove(path)
+	}
+	if err != nil {
+		r.Inconc("cannot tamper with the key file: " + err.Error())
+		return
+	}
+	r.Eval(1)
+	r.Count("lostkey.trials."+mode, 1)
+	if err := x.srv.Start(); err != nil {
+		x.srv.S = nil
+		r.Count("lostkey.refused_to_start."+mode, 1)
+		return
+	}
+	r.Count("lostkey.started."+mode, 1)
+	x.states = []string{"", x.states[0]} // unregistered again, or still K1's
+	x.inspect("after a start with the key file " + mode)
+	if x.bad {
+		return
+	}
+	for _, c := range []*call{g.register(k2.Pub, g.temp, "temp-new-key", "valid"), g.order("auth", &k1, "first-gca", "valid"), g.order("auth", &k2, "second-gca", "valid")} {
+		if !x.judge(0, c) {
+			return
+		}
+	}
+	x.inspect("after a registration on the server that lost its key file")
 }
 
 // transientFault: the key file cannot be written when the first valid registration arrives (a directory
